@@ -64,6 +64,7 @@ def _run(pid, tier, chk, M, S, bindir, col):
         S.explore_handshake(chk, col, bindir, tier)
         S.drop_race(chk, col, bindir, tier)
         S.faults(chk, col, bindir, tier)
+        S.discovered_faults(chk, col, bindir, tier)
         S.perturbed(chk, col, bindir, tier)
         S.big_batches(chk, col, bindir, tier)
         # --- B2 at algorithm level: the free-running thread lives are behaviours of the model
@@ -79,6 +80,7 @@ def _run(pid, tier, chk, M, S, bindir, col):
             S.explore_handshake(chk, col, rb, "quick", release=True, tag="-release")
             S.drop_race(chk, col, rb, tier, release=True, tag="-release")
             S.faults(chk, col, rb, "quick", release=True, tag="-release")
+            S.discovered_faults(chk, col, rb, "quick", release=True, tag="-release")
             S.big_batches(chk, col, rb, tier, release=True, tag="-release")
             # the other two link modes of the repository's runners (static, static PIE), release
             for mode in ("static", "static-pie"):
